@@ -834,6 +834,27 @@ func (w *h1World) check(siteUser, sitePass string) {
 			badConn[rec.Conn] = true
 		}
 	}
+	// "an identifier unique to that instance": every request this instance forwarded carries the same new element
+	if c.Mode == "req" {
+		tags := map[string]string{}
+		w.mu.Lock()
+		for _, or := range w.orig {
+			if or.Msg == nil {
+				continue
+			}
+			vs := splitList(or.Msg.Get("Via"))
+			if len(vs) == 0 {
+				continue
+			}
+			if m := viaNewRe.FindStringSubmatch(vs[len(vs)-1]); m != nil {
+				tags[m[3]] = or.Token
+			}
+		}
+		w.mu.Unlock()
+		if len(tags) > 1 {
+			env.Fail("req-via", "instance-tag-not-stable", "requests forwarded by one proxy instance carry different instance identifiers in the Via element it adds: %v", tags)
+		}
+	}
 	// incremental-delivery failures count only on connections that were healthy up to that response
 	connOf := map[string]int{}
 	for i := range c.Conns {
